@@ -272,6 +272,7 @@ def worker(args):
         cases.append(dict(steps=steps, timeout=6000))
         plans.append(plan)
     outs, crashes = wire.run_cases(binary, cases)
+    case_of = {id(p_): c_ for p_, c_ in zip(plans, cases)}
     viol, stats, inconc = [], collections.Counter(), []
     for rq, info in crashes:
         viol.append(("crash " + vf.crash_sig(info), "sanitizer report / abnormal exit of a connected client while handling roster traffic", {"stderr": info["stderr"][-3000:]}))
@@ -283,7 +284,9 @@ def worker(args):
             fails = [e for e in out["journal"] if e["ev"] == "await_failed"]
             inconc.append("history stalled at step %s: %s" % (out["stalled"], fails[:1]))
             continue
-        err = judge(out["journal"], plan, viol, stats, None)
+        v_, st_, err = wire.judged(binary, case_of[id(plan)], out, lambda j_, vv, ss: judge(j_, plan, vv, ss, None))
+        viol += v_
+        stats.update(st_)
         if err:
             inconc.append(err)
     return viol, dict(stats), inconc
